@@ -10,7 +10,10 @@ import (
 	"verif/harness/internal/proto"
 )
 
-func init() { protos["enc"] = protoImpl{gen: encGen, run: encRun} }
+func init() {
+	protos["enc"] = protoImpl{gen: encGen, run: encRun}
+	protos["prim"] = protoImpl{gen: primGen, run: encRun}
+}
 
 func boundary64(r *proto.Rng) uint64 {
 	switch r.Intn(8) {
@@ -81,6 +84,109 @@ func guard(f func() string) (out string) {
 	return f()
 }
 
+// prim ops (C16): dec / assume / assert / mapclear
+func primGen(seed uint64, tier string) {
+	r := proto.NewRng(seed ^ 0xC16)
+	n := 2000
+	if tier == "thorough" {
+		n = 100000
+	}
+	pow := uint64(1)
+	for k := 0; k < 20; k++ { // 10^k-1, 10^k, 10^k+1
+		proto.Reply("dec %d", pow-1)
+		proto.Reply("dec %d", pow)
+		proto.Reply("dec %d", pow+1)
+		if k < 19 {
+			pow *= 10
+		}
+	}
+	proto.Reply("dec %d", ^uint64(0))
+	proto.Reply("dec %d", uint64(8446744073709551615))
+	proto.Reply("dec %d", uint64(10000000000000000005))
+	for k := uint(0); k < 64; k++ {
+		proto.Reply("dec %d", uint64(1)<<k)
+		proto.Reply("dec %d", uint64(1)<<k-1)
+	}
+	for i := 0; i < n; i++ {
+		switch r.Intn(10) {
+		case 0:
+			proto.Reply("assume %d", r.Intn(2))
+		case 1:
+			proto.Reply("assert %d", r.Intn(2))
+		case 2, 3:
+			sz := proto.Pick(r, []int{0, 1, 2, 3, 7, 8, 9, 63, 64, 65, 100, 127, 128, 129, 255, 256, 257, 1000, 1025})
+			if r.Intn(3) == 0 {
+				sz = r.Intn(1200)
+			}
+			proto.Reply("mapclear %s %d %d", proto.Pick(r, []string{"u64", "str", "struct", "named"}), sz, r.Intn(1000))
+		default:
+			proto.Reply("dec %d", boundary64(r))
+		}
+	}
+}
+
+type namedMap map[string][]byte
+type skey struct {
+	a uint64
+	b string
+}
+
+func mapclearOne(kind string, n int, seed int) string {
+	check := func(l0, l1 int, usable bool) string {
+		if l0 != n {
+			return fmt.Sprintf("bad-op built %d of %d", l0, n)
+		}
+		u := "unusable"
+		if usable {
+			u = "usable"
+		}
+		return fmt.Sprintf("len %d %s", l1, u)
+	}
+	switch kind {
+	case "u64":
+		m := map[uint64]uint64{}
+		for i := 0; i < n; i++ {
+			m[uint64(i*7+seed)] = uint64(i)
+		}
+		l0 := len(m)
+		machine.MapClear(m)
+		l1 := len(m)
+		m[5] = 6
+		return check(l0, l1, m[5] == 6 && len(m) == l1+1)
+	case "str":
+		m := map[string]string{}
+		for i := 0; i < n; i++ {
+			m[fmt.Sprintf("k%d-%d", i, seed)] = "v"
+		}
+		l0 := len(m)
+		machine.MapClear(m)
+		l1 := len(m)
+		m["x"] = "y"
+		return check(l0, l1, m["x"] == "y" && len(m) == l1+1)
+	case "struct":
+		m := map[skey]bool{}
+		for i := 0; i < n; i++ {
+			m[skey{uint64(i), fmt.Sprint(seed)}] = true
+		}
+		l0 := len(m)
+		machine.MapClear(m)
+		l1 := len(m)
+		m[skey{1, "z"}] = true
+		return check(l0, l1, m[skey{1, "z"}] && len(m) == l1+1)
+	case "named":
+		m := namedMap{}
+		for i := 0; i < n; i++ {
+			m[fmt.Sprintf("%d/%d", seed, i)] = []byte{byte(i)}
+		}
+		l0 := len(m)
+		machine.MapClear(m)
+		l1 := len(m)
+		m["q"] = []byte{1}
+		return check(l0, l1, len(m["q"]) == 1 && len(m) == l1+1)
+	}
+	return "bad-op"
+}
+
 func encRun(lines []string) {
 	for _, l := range lines {
 		w := strings.Fields(l)
@@ -91,6 +197,34 @@ func encRun(lines []string) {
 func encOne(w []string) string {
 	if len(w) < 2 {
 		return "bad-op"
+	}
+	switch w[0] {
+	case "dec":
+		v, err := strconv.ParseUint(w[1], 10, 64)
+		if err != nil {
+			return "bad-op"
+		}
+		return "str " + machine.UInt64ToString(v)
+	case "assume", "assert":
+		c := w[1] == "1"
+		return guard(func() string {
+			if w[0] == "assume" {
+				machine.Assume(c)
+			} else {
+				machine.Assert(c)
+			}
+			return "ok"
+		})
+	case "mapclear":
+		if len(w) != 4 {
+			return "bad-op"
+		}
+		n, e1 := strconv.Atoi(w[2])
+		sd, e2 := strconv.Atoi(w[3])
+		if e1 != nil || e2 != nil {
+			return "bad-op"
+		}
+		return guard(func() string { return mapclearOne(w[1], n, sd) })
 	}
 	buf, err := proto.Unhex(w[1])
 	if err != nil {
